@@ -13,7 +13,7 @@ TRUSTED = [
     'validated on every run against real database files after injected errors and after real crashes',
     'hand-written model Model/C19Txn.v of the transaction machinery (see C19), tied by driver-call trace correspondence under fault injection on the write programs of this check',
     'PostgreSQL: Model/C17Pg.v is modelled from postgres.py and compared on every run with the real PGProvider.set_transaction_mode / PGPool.release / SessionCache code driven '
-    'with a recording stub psycopg2 connection; psycopg2 / server behaviour (implicit BEGIN with autocommit off) is documentation, nothing runs against PostgreSQL',
+    'with a recording, fault-injecting stub psycopg2 connection (database errors that are not lost connections); psycopg2 / server behaviour (implicit BEGIN with autocommit off) is documentation, nothing runs against PostgreSQL',
     'fault / crash harness tools/c19_driver.py',
 ]
 ASSUMPTIONS = [
@@ -33,6 +33,9 @@ TEMPLATES = [
     ('commit-rollback', [['new', False, 41], ['commit', False, 0], ['rawwrite', False, 42], ['rollback', False, 0], ['rawwrite', False, 43]]),
     ('dbcommit', [['rawupdate', False, 1], ['new', False, 51], ['dbcommit', False, 0], ['new', False, 52]]),
     ('read-then-write', [['select', False, 0], ['select', False, 0], ['new', False, 61], ['select', False, 0], ['rawwrite', False, 62]]),
+    # raw SQL only, in an optimistic session, with commit() / rollback() called repeatedly in the middle
+    ('raw-optimistic-repeated', [['rawwrite', False, 91], ['rawupdate', False, 3], ['commit', False, 0], ['commit', False, 0], ['rawwrite', False, 92], ['rollback', False, 0],
+                                 ['rollback', False, 0], ['rawupdate', False, 4], ['dbcommit', False, 0], ['rawwrite', False, 93], ['dbrollback', False, 0], ['rawwrite', False, 94]]),
     # flushes that contain ONLY many-to-many link changes (executemany on the link table through _exec_sql without start_transaction)
     ('m2m-only-flush-raise', [['load', False, 2], ['loadu', False, 2], ['link', False, [2, 2]], ['flush', False, 0], ['select', False, 0], ['raise', False, 0]]),
     ('m2m-only-unlink-link', [['load', False, 1], ['loadu', False, 1], ['unlink', False, [1, 1]], ['loadu', False, 3], ['link', False, [1, 3]], ['flush', False, 0], ['rollback', False, 0],
@@ -153,7 +156,7 @@ def runs(ctx, deep=False):
             fcases.append(dict(c, faults=[k]))
         # real crashes: every call index; in the quick tier every shape for the first templates, one shape (rotating) for the other programs
         pi = [p[0] for p in progs].index(c['name'])
-        if full or pi == 0 or (pi < len(TEMPLATES) and SHAPES[pi % 3] == c['shape']) or (pi == 6 and c['shape'] == 'opt'):
+        if full or pi == 0 or (pi < len(TEMPLATES) and SHAPES[pi % 3] == c['shape']) or (pi == 7 and c['shape'] == 'opt'):
             for k in range(n + 1):
                 # quick tier: a crash before a cursor() call leaves the same file as a crash before the statement that follows it
                 if not full and k < n and o['trace'][k][0] == 'cursor': continue
@@ -315,7 +318,7 @@ LEVEL_TEXT = ('Machine-checked proof (Coq 8.16.1) over the model of the SQLite t
               'raw db.execute writes, explicit commits/rollbacks) and every fault oracle, every write statement is issued inside an open BEGIN IMMEDIATE..COMMIT/ROLLBACK bracket of its '
               'connection and every COMMIT comes after all pending changes were flushed (C17_bracket); over the abstract SQLite semantics the committed content changes only at a successful '
               'COMMIT and then by the whole transaction (C17_commit_only, C17_commit_all), hence after a crash or error at any call the file holds the content of a commit point '
-              '(C17_all_or_nothing). PostgreSQL: every write runs with autocommit off (C17_postgres_autocommit, fault-free model).')
+              '(C17_all_or_nothing). PostgreSQL: under any database errors every successful write and every COMMIT runs with autocommit off and autocommit is never switched inside a transaction (C17_postgres_autocommit).')
 LEVEL_NOTE = ('Partial: SQLite\'s atomic commit itself is trusted; the abstract database semantics and the transaction model are tied to /repo by correspondence (traces, file contents after '
               'every injected error and after every real process crash point), not derived from source; the PostgreSQL model is compared with the real provider code on a stub driver only.')
 TECHNIQUE = ('Coq proof over the C19 state-machine model (trace invariant) plus a semantic lemma over an abstract database; vm_compute correspondence of traces and of file contents; '
